@@ -106,6 +106,8 @@ func main() {
 	switch os.Args[1] {
 	case "run", "pin":
 		os.Exit(cmdRun(os.Args[1], os.Args[2:]))
+	case "maprange":
+		os.Exit(cmdMapRange(os.Args[2:]))
 	default:
 		fmt.Fprintln(os.Stderr, "unknown command")
 		os.Exit(2)
